@@ -1,0 +1,508 @@
+//go:build verif
+
+package scheduler
+
+import (
+	"fmt"
+	"sort"
+	"time"
+)
+
+// This file only exists in builds with the "verif" tag. It lets the
+// verification harness observe the state of an InMemoryBuildQueue (to
+// compare it with the state of its formal model) and evaluate the
+// structural invariants the model's theorems talk about on the real
+// data structures. It does not modify any state.
+
+// VerifOperation describes a single operation.
+type VerifOperation struct {
+	Name                   string
+	Priority               int32
+	InvocationKeys         []string
+	Waiters                uint
+	MayExistWithoutWaiters bool
+	QueueIndex             int
+	Cleanup                *time.Time
+}
+
+// VerifTask describes a single task, as reachable through operations.
+type VerifTask struct {
+	ActionDigestHash   string
+	InstanceNamePrefix string
+	Platform           string
+	SizeClass          uint32
+	Operations         []VerifOperation
+	WorkerID           map[string]string
+	RetryCount         int
+	Stage              int32
+	ResponseCode       int32
+	HasLearner         bool
+	ExpectedDuration   time.Duration
+	QueuedTimestamp    time.Time
+	InstanceNameSuffix string
+}
+
+// VerifWorker describes a single worker.
+type VerifWorker struct {
+	ID                      map[string]string
+	CurrentTaskOperation    string // Lowest operation name of the current task.
+	Terminating             bool
+	Parked                  bool
+	Cleanup                 *time.Time
+	LastInvocationKeys      []string
+	HasLastInvocation       bool
+	StickinessStartingTimes []time.Time
+	ListIndex               int
+}
+
+// VerifInvocation describes a node of the tree of invocations.
+type VerifInvocation struct {
+	Keys                             []string
+	QueuedOperations                 []string // In heap order.
+	QueuedChildren                   [][]string
+	IdleSynchronizingWorkersChildren [][]string
+	IdleSynchronizingWorkers         []map[string]string
+	FirstQueuedOperationPriority     int32
+	ExecutingWorkersCount            int
+	ExecutingOperationsCount         int
+	LastOperationStarted             time.Time
+	LastOperationCompletion          time.Time
+	IdleWorkersCount                 uint32
+	Children                         []VerifInvocation
+}
+
+// VerifSizeClassQueue describes a size class queue.
+type VerifSizeClassQueue struct {
+	InstanceNamePrefix string
+	Platform           string
+	SizeClass          uint32
+	MayBeRemoved       bool
+	Drains             []map[string]string
+	Cleanup            *time.Time
+	Workers            []VerifWorker
+	RootInvocation     VerifInvocation
+	StickinessLimits   []time.Duration
+}
+
+// VerifState is a snapshot of the scheduler.
+type VerifState struct {
+	Now                time.Time
+	PlatformQueues     []string // "prefix|platform|sizeclasses" in list order.
+	SizeClassQueues    []VerifSizeClassQueue
+	Tasks              []VerifTask
+	DeduplicationMap   map[string]string // Digest hash -> lowest operation name of the task.
+	CleanupEntries     int
+	OperationsCount    int
+	InvariantViolation []string
+}
+
+func (bq *InMemoryBuildQueue) verifCleanupTime(k cleanupKey) *time.Time {
+	if k == 0 {
+		return nil
+	}
+	t := bq.cleanupQueue.heap[k-1].timestamp
+	return &t
+}
+
+func verifKeys(i *invocation) []string {
+	keys := make([]string, 0, len(i.invocationKeys))
+	for _, k := range i.invocationKeys {
+		keys = append(keys, string(k))
+	}
+	return keys
+}
+
+func verifLowestOperationName(t *task) string {
+	name := ""
+	for _, o := range t.operations {
+		if name == "" || o.name < name {
+			name = o.name
+		}
+	}
+	return name
+}
+
+func verifDumpInvocation(i *invocation) VerifInvocation {
+	vi := VerifInvocation{
+		Keys:                         verifKeys(i),
+		FirstQueuedOperationPriority: i.firstQueuedOperationPriority,
+		ExecutingWorkersCount:        len(i.executingWorkers),
+		LastOperationStarted:         i.lastOperationStarted,
+		LastOperationCompletion:      i.lastOperationCompletion,
+		IdleWorkersCount:             i.idleWorkersCount,
+	}
+	for _, c := range i.executingWorkers {
+		vi.ExecutingOperationsCount += c
+	}
+	for _, o := range i.queuedOperations {
+		vi.QueuedOperations = append(vi.QueuedOperations, o.name)
+	}
+	for _, c := range i.queuedChildren {
+		vi.QueuedChildren = append(vi.QueuedChildren, verifKeys(c))
+	}
+	for _, c := range i.idleSynchronizingWorkersChildren {
+		vi.IdleSynchronizingWorkersChildren = append(vi.IdleSynchronizingWorkersChildren, verifKeys(c))
+	}
+	for _, e := range i.idleSynchronizingWorkers {
+		vi.IdleSynchronizingWorkers = append(vi.IdleSynchronizingWorkers, e.worker.workerKey.getWorkerID())
+	}
+	childKeys := make([]string, 0, len(i.children))
+	for k := range i.children {
+		childKeys = append(childKeys, string(k))
+	}
+	sort.Strings(childKeys)
+	for _, k := range childKeys {
+		for ck, c := range i.children {
+			if string(ck) == k {
+				vi.Children = append(vi.Children, verifDumpInvocation(c))
+			}
+		}
+	}
+	return vi
+}
+
+type verifHeap interface {
+	Len() int
+	Less(i, j int) bool
+}
+
+func verifCheckHeap(h verifHeap, what string, violations *[]string) {
+	for i := 1; i < h.Len(); i++ {
+		if parent := (i - 1) / 2; h.Less(i, parent) {
+			*violations = append(*violations, fmt.Sprintf("%s: element %d is less than its parent %d", what, i, parent))
+		}
+	}
+}
+
+func (bq *InMemoryBuildQueue) verifCheckInvocation(i *invocation, scq *sizeClassQueue, violations *[]string) (queuedBelow int, parkedBelow int) {
+	what := fmt.Sprintf("invocation %v", verifKeys(i))
+	if i.sizeClassQueue != scq {
+		*violations = append(*violations, what+": wrong sizeClassQueue pointer")
+	}
+	verifCheckHeap(i.queuedOperations, what+" queuedOperations", violations)
+	verifCheckHeap(i.queuedChildren, what+" queuedChildren", violations)
+	verifCheckHeap(i.idleSynchronizingWorkersChildren, what+" idleSynchronizingWorkersChildren", violations)
+	for idx, o := range i.queuedOperations {
+		if o.queueIndex != idx {
+			*violations = append(*violations, fmt.Sprintf("%s: operation %s has queueIndex %d at position %d", what, o.name, o.queueIndex, idx))
+		}
+		if o.invocation != i {
+			*violations = append(*violations, fmt.Sprintf("%s: queued operation %s belongs to another invocation", what, o.name))
+		}
+		if o.task.getStage() != 2 {
+			*violations = append(*violations, fmt.Sprintf("%s: queued operation %s has a task that is not QUEUED", what, o.name))
+		}
+		if bq.operationsNameMap[o.name] != o {
+			*violations = append(*violations, fmt.Sprintf("%s: queued operation %s is not registered by name", what, o.name))
+		}
+	}
+	for idx, c := range i.queuedChildren {
+		if c.queuedChildrenIndex != idx {
+			*violations = append(*violations, fmt.Sprintf("%s: child %v has queuedChildrenIndex %d at position %d", what, verifKeys(c), c.queuedChildrenIndex, idx))
+		}
+		if c.parent != i {
+			*violations = append(*violations, what+": queued child with wrong parent")
+		}
+	}
+	for idx, c := range i.idleSynchronizingWorkersChildren {
+		if c.idleSynchronizingWorkersChildrenIndex != idx {
+			*violations = append(*violations, fmt.Sprintf("%s: child %v has idleSynchronizingWorkersChildrenIndex %d at position %d", what, verifKeys(c), c.idleSynchronizingWorkersChildrenIndex, idx))
+		}
+	}
+	for idx, e := range i.idleSynchronizingWorkers {
+		if e.worker.listIndex != idx {
+			*violations = append(*violations, fmt.Sprintf("%s: parked worker has listIndex %d at position %d", what, e.worker.listIndex, idx))
+		}
+		if e.worker.lastInvocation != i || e.worker.wakeup == nil {
+			*violations = append(*violations, what+": parked worker not associated with this invocation")
+		}
+	}
+	queuedBelow = len(i.queuedOperations)
+	parkedBelow = len(i.idleSynchronizingWorkers)
+	for k, c := range i.children {
+		if c.parent != i || len(c.invocationKeys) != len(i.invocationKeys)+1 || c.invocationKeys[len(c.invocationKeys)-1] != k {
+			*violations = append(*violations, what+": child with inconsistent keys or parent")
+		}
+		cq, cp := bq.verifCheckInvocation(c, scq, violations)
+		if (cq > 0) != (c.queuedChildrenIndex >= 0) {
+			*violations = append(*violations, fmt.Sprintf("%s: child %v has %d queued operations below it but queuedChildrenIndex %d", what, verifKeys(c), cq, c.queuedChildrenIndex))
+		}
+		if (cp > 0) != (c.idleSynchronizingWorkersChildrenIndex >= 0) {
+			*violations = append(*violations, fmt.Sprintf("%s: child %v has %d parked workers below it but idleSynchronizingWorkersChildrenIndex %d", what, verifKeys(c), cp, c.idleSynchronizingWorkersChildrenIndex))
+		}
+		if !c.isActive() && c.idleWorkersCount == 0 {
+			*violations = append(*violations, fmt.Sprintf("%s: empty child %v was not removed", what, verifKeys(c)))
+		}
+		queuedBelow += cq
+		parkedBelow += cp
+	}
+	for idx, c := range i.queuedChildren {
+		if i.children[c.invocationKeys[len(c.invocationKeys)-1]] != c {
+			*violations = append(*violations, fmt.Sprintf("%s: queuedChildren[%d] is not a child", what, idx))
+		}
+	}
+	return
+}
+
+// VerifDumpState returns a snapshot of the scheduler's state and
+// evaluates structural invariants on it.
+func (bq *InMemoryBuildQueue) VerifDumpState() *VerifState {
+	bq.lock.Lock()
+	defer bq.lock.Unlock()
+
+	s := &VerifState{
+		Now:              bq.now,
+		DeduplicationMap: map[string]string{},
+		CleanupEntries:   len(bq.cleanupQueue.heap),
+		OperationsCount:  len(bq.operationsNameMap),
+	}
+	violations := &s.InvariantViolation
+
+	// Cleanup heap.
+	for idx, e := range bq.cleanupQueue.heap {
+		if *e.key != cleanupKey(idx+1) {
+			*violations = append(*violations, fmt.Sprintf("cleanup entry %d has key %d", idx, *e.key))
+		}
+		if idx > 0 && e.timestamp.Before(bq.cleanupQueue.heap[(idx-1)/2].timestamp) {
+			*violations = append(*violations, fmt.Sprintf("cleanup heap: element %d is before its parent", idx))
+		}
+	}
+
+	// Platform queues and the trie.
+	for idx, pq := range bq.platformQueues {
+		s.PlatformQueues = append(s.PlatformQueues, fmt.Sprintf("%s|%s|%v", pq.platformKey.GetInstanceNamePrefix().String(), pq.platformKey.GetPlatformString(), pq.sizeClasses))
+		if got := bq.platformQueuesTrie.GetExact(pq.platformKey); got != idx {
+			*violations = append(*violations, fmt.Sprintf("platform queue %d is registered in the trie at index %d", idx, got))
+		}
+		if len(pq.sizeClasses) != len(pq.sizeClassQueues) || len(pq.sizeClasses) == 0 {
+			*violations = append(*violations, fmt.Sprintf("platform queue %d has inconsistent size class lists", idx))
+		}
+		for j, scq := range pq.sizeClassQueues {
+			if scq.platformQueue != pq || scq.sizeClass != pq.sizeClasses[j] || bq.sizeClassQueues[scq.getKey()] != scq {
+				*violations = append(*violations, fmt.Sprintf("platform queue %d size class queue %d is inconsistent", idx, j))
+			}
+			if j > 0 && pq.sizeClasses[j-1] >= pq.sizeClasses[j] {
+				*violations = append(*violations, fmt.Sprintf("platform queue %d size classes are not sorted", idx))
+			}
+		}
+	}
+
+	// Size class queues, workers and invocations.
+	scqKeys := make([]sizeClassKey, 0, len(bq.sizeClassQueues))
+	for k := range bq.sizeClassQueues {
+		scqKeys = append(scqKeys, k)
+	}
+	sort.Slice(scqKeys, func(i, j int) bool {
+		a, b := scqKeys[i], scqKeys[j]
+		as, bs := a.platformKey.GetInstanceNamePrefix().String()+"|"+a.platformKey.GetPlatformString(), b.platformKey.GetInstanceNamePrefix().String()+"|"+b.platformKey.GetPlatformString()
+		return as < bs || (as == bs && a.sizeClass < b.sizeClass)
+	})
+	seenTasks := map[*task]bool{}
+	for _, k := range scqKeys {
+		scq := bq.sizeClassQueues[k]
+		vs := VerifSizeClassQueue{
+			InstanceNamePrefix: k.platformKey.GetInstanceNamePrefix().String(),
+			Platform:           k.platformKey.GetPlatformString(),
+			SizeClass:          k.sizeClass,
+			MayBeRemoved:       scq.mayBeRemoved,
+			Cleanup:            bq.verifCleanupTime(scq.cleanupKey),
+			StickinessLimits:   scq.platformQueue.workerInvocationStickinessLimits,
+		}
+		found := false
+		for _, other := range scq.platformQueue.sizeClassQueues {
+			found = found || other == scq
+		}
+		if !found {
+			*violations = append(*violations, "size class queue is not part of its platform queue")
+		}
+		drainKeys := make([]string, 0, len(scq.drains))
+		for dk := range scq.drains {
+			drainKeys = append(drainKeys, dk)
+		}
+		sort.Strings(drainKeys)
+		for _, dk := range drainKeys {
+			vs.Drains = append(vs.Drains, scq.drains[dk].WorkerIdPattern)
+		}
+		workerKeys := make([]string, 0, len(scq.workers))
+		for wk := range scq.workers {
+			workerKeys = append(workerKeys, string(wk))
+		}
+		sort.Strings(workerKeys)
+		parked := 0
+		for _, wk := range workerKeys {
+			w := scq.workers[workerKey(wk)]
+			vw := VerifWorker{
+				ID:                      w.workerKey.getWorkerID(),
+				Terminating:             w.terminating,
+				Parked:                  w.wakeup != nil,
+				Cleanup:                 bq.verifCleanupTime(w.cleanupKey),
+				StickinessStartingTimes: append([]time.Time(nil), w.stickinessStartingTimes...),
+				ListIndex:               w.listIndex,
+			}
+			if w.lastInvocation != nil {
+				vw.HasLastInvocation = true
+				vw.LastInvocationKeys = verifKeys(w.lastInvocation)
+				if w.lastInvocation.sizeClassQueue != scq {
+					*violations = append(*violations, "worker "+wk+" has a last invocation in another size class queue")
+				}
+			}
+			if t := w.currentTask; t != nil {
+				vw.CurrentTaskOperation = verifLowestOperationName(t)
+				if t.currentWorker != w {
+					*violations = append(*violations, "worker "+wk+" runs a task that is assigned to another worker")
+				}
+				if t.executeResponse != nil {
+					*violations = append(*violations, "worker "+wk+" runs a completed task")
+				}
+				if len(t.operations) == 0 || t.getCurrentSizeClassQueue() != scq {
+					*violations = append(*violations, "worker "+wk+" runs a task of another size class queue")
+				}
+				if w.lastInvocation != nil {
+					*violations = append(*violations, "executing worker "+wk+" has a last invocation")
+				}
+				if w.wakeup != nil {
+					*violations = append(*violations, "executing worker "+wk+" is parked")
+				}
+				seenTasks[t] = true
+			} else if w.lastInvocation == nil {
+				*violations = append(*violations, "idle worker "+wk+" has no last invocation")
+			}
+			if w.wakeup != nil {
+				parked++
+				if w.cleanupKey.isActive() {
+					*violations = append(*violations, "parked worker "+wk+" has an armed cleanup")
+				}
+				if w.isDrained(scq, w.workerKey.getWorkerID()) {
+					*violations = append(*violations, "parked worker "+wk+" is drained or terminating")
+				}
+			}
+			vs.Workers = append(vs.Workers, vw)
+		}
+		queued, parkedInTree := bq.verifCheckInvocation(&scq.rootInvocation, scq, violations)
+		if parkedInTree != parked {
+			*violations = append(*violations, fmt.Sprintf("%d workers are parked but %d are queued in invocations", parked, parkedInTree))
+		}
+		if parked > 0 && queued > 0 {
+			*violations = append(*violations, fmt.Sprintf("%d operations are queued while %d workers are waiting for work", queued, parked))
+		}
+		if len(scq.workers) == 0 && scq.mayBeRemoved && !scq.cleanupKey.isActive() {
+			*violations = append(*violations, "removable size class queue without workers has no cleanup armed")
+		}
+		vs.RootInvocation = verifDumpInvocation(&scq.rootInvocation)
+		s.SizeClassQueues = append(s.SizeClassQueues, vs)
+	}
+
+	// Operations and tasks.
+	names := make([]string, 0, len(bq.operationsNameMap))
+	for name := range bq.operationsNameMap {
+		names = append(names, name)
+	}
+	sort.Strings(names)
+	tasks := map[*task]*VerifTask{}
+	for _, name := range names {
+		o := bq.operationsNameMap[name]
+		t := o.task
+		if t.operations[o.invocation] != o {
+			*violations = append(*violations, "operation "+name+" is not registered in its task under its invocation")
+		}
+		if o.waiters == 0 && !o.mayExistWithoutWaiters && !o.cleanupKey.isActive() {
+			*violations = append(*violations, "operation "+name+" has no waiters and no cleanup armed")
+		}
+		if o.waiters > 0 && o.cleanupKey.isActive() {
+			*violations = append(*violations, "operation "+name+" has waiters and a cleanup armed")
+		}
+		if (o.queueIndex >= 0) != (t.getStage() == 2) {
+			*violations = append(*violations, fmt.Sprintf("operation %s has queueIndex %d but its task is in stage %d", name, o.queueIndex, t.getStage()))
+		}
+		vt, ok := tasks[t]
+		if !ok {
+			scqKey := t.getCurrentSizeClassQueue().getKey()
+			vt = &VerifTask{
+				ActionDigestHash:   t.actionDigest.GetHashString(),
+				InstanceNamePrefix: scqKey.platformKey.GetInstanceNamePrefix().String(),
+				Platform:           scqKey.platformKey.GetPlatformString(),
+				SizeClass:          scqKey.sizeClass,
+				RetryCount:         t.retryCount,
+				Stage:              int32(t.getStage()),
+				ResponseCode:       -1,
+				HasLearner:         t.initialSizeClassLearner != nil,
+				ExpectedDuration:   t.expectedDuration,
+				QueuedTimestamp:    t.desiredState.QueuedTimestamp.AsTime(),
+				InstanceNameSuffix: t.desiredState.InstanceNameSuffix,
+			}
+			if t.executeResponse != nil {
+				vt.ResponseCode = t.executeResponse.GetStatus().GetCode()
+				if t.stageChangeWakeup != nil {
+					*violations = append(*violations, "completed task of operation "+name+" still has a wake-up channel")
+				}
+				if t.currentWorker != nil {
+					*violations = append(*violations, "completed task of operation "+name+" still has a worker")
+				}
+			} else if t.stageChangeWakeup == nil {
+				*violations = append(*violations, "uncompleted task of operation "+name+" has no wake-up channel")
+			}
+			if (t.initialSizeClassLearner != nil) != (t.executeResponse == nil) {
+				*violations = append(*violations, "task of operation "+name+": learner present iff not completed is violated")
+			}
+			if w := t.currentWorker; w != nil {
+				vt.WorkerID = w.workerKey.getWorkerID()
+				if w.currentTask != t {
+					*violations = append(*violations, "task of operation "+name+" is assigned to a worker that runs something else")
+				}
+				if !seenTasks[t] {
+					*violations = append(*violations, "task of operation "+name+" is assigned to a worker that is not registered")
+				}
+			}
+			for i := range t.operations {
+				if i.sizeClassQueue != t.getCurrentSizeClassQueue() {
+					*violations = append(*violations, "task of operation "+name+" has operations in different size class queues")
+				}
+			}
+			tasks[t] = vt
+		}
+		vt.Operations = append(vt.Operations, VerifOperation{
+			Name:                   o.name,
+			Priority:               o.priority,
+			InvocationKeys:         verifKeys(o.invocation),
+			Waiters:                o.waiters,
+			MayExistWithoutWaiters: o.mayExistWithoutWaiters,
+			QueueIndex:             o.queueIndex,
+			Cleanup:                bq.verifCleanupTime(o.cleanupKey),
+		})
+	}
+	for t := range seenTasks {
+		if _, ok := tasks[t]; !ok {
+			*violations = append(*violations, "a worker runs a task that has no registered operation")
+		}
+	}
+	for _, name := range names {
+		t := bq.operationsNameMap[name].task
+		if vt, ok := tasks[t]; ok {
+			s.Tasks = append(s.Tasks, *vt)
+			delete(tasks, t)
+		}
+	}
+	for d, t := range bq.inFlightDeduplicationMap {
+		s.DeduplicationMap[d.GetHashString()] = verifLowestOperationName(t)
+		if t.executeResponse != nil {
+			*violations = append(*violations, "deduplication map contains a completed task")
+		}
+		if t.actionDigest != d {
+			*violations = append(*violations, "deduplication map entry under the wrong digest")
+		}
+	}
+	return s
+}
+
+// VerifIsPreferred evaluates invocation.isPreferred() on two stub
+// invocations.
+func VerifIsPreferred(executingI int, priorityI int32, executingJ int, priorityJ int32, tieBreaker bool) bool {
+	mk := func(n int, p int32) *invocation {
+		i := &invocation{executingWorkers: map[*worker]int{}, firstQueuedOperationPriority: p}
+		for k := 0; k < n; k++ {
+			i.executingWorkers[&worker{}] = 1
+		}
+		return i
+	}
+	return mk(executingI, priorityI).isPreferred(mk(executingJ, priorityJ), tieBreaker)
+}
